@@ -18,12 +18,15 @@ from sfv.canon import tok, untok, dtype_tok
 TARGETS = ['SFModel.Props.C16']
 THEOREMS = [
     'SF.C16.csv_roundtrip', 'SF.C16.unquoted_specials_do_not_roundtrip', 'SF.C16.rejoin_roundtrip',
-    'SF.C16.rejoin_counterexamples', 'SF.C16.tsv_roundtrip', 'SF.C16.tsv_quote_counterexample',
+    'SF.C16.rejoin_counterexamples', 'SF.C16.tsv_roundtrip', 'SF.C16.tsv_tab_cell_counterexample',
+    'SF.C16.importTsvOld_quote_free_roundtrip', 'SF.C16.importTsvOld_quote_counterexample',
+    'SF.C16.storefilter_inverse', 'SF.C16.storefilter_default_inverse', 'SF.C16.storefilter_default_counterexamples',
+    'SF.C16.storeFilterWithNat_wellFormed',
     'SF.C16.records_layout_inverse', 'SF.C16.layout_depth_mismatch_counterexample',
 ]
 PARTIAL = []
 CORR_ONLY = [
-    'np.genfromtxt type inference (a parameter on the unambiguous domain), StoreFilter encode/decode of NaN/None/inf, apex_to_name',
+    'np.genfromtxt type inference (a parameter on the unambiguous domain), apex_to_name; StoreFilter with value_format_* options and its array forms (the default table is modelled and proved)',
     'to_pairs / from_items / from_records / from_dict_records / from_records_items and pickle round trips (oracle only)',
     'file encodings and the splitting of a file into physical lines (cells are free of CR/LF)',
 ]
@@ -406,6 +409,8 @@ def row_alphabet(d, q):
 
 
 def nontrivial(c):
+    if c['k'] == 'sf':
+        return len(c['cells']) >= 2
     if c['k'] == 'row':
         return len(c['fs']) >= 2
     if c['k'] == 'rowblock':
@@ -463,6 +468,12 @@ def cases(ctx):
             for ln in range(0, 6):
                 for p in itertools.product(al2, repeat=ln):
                     yield {'k': 'line', 'd': d, 'q': q, 'line': ''.join(p)}
+    # StoreFilter encode / decode table: every special, every decode token, plain values, random texts
+    yield {'k': 'sf', 'cells': SF_SPECIALS + [qatom(t) for t in SF_TEXTS] + ['p:' + t for t in SF_PLAIN]}
+    for _ in range(20 if quick else 300):
+        cells = [rng.choice(SF_SPECIALS + ['p:' + t for t in SF_PLAIN]) if rng.random() < 0.4 else
+                 qatom(rng.choice(SF_TEXTS) if rng.random() < 0.5 else rand_text(rng, ',"')) for _ in range(rng.randint(1, 6))]
+        yield {'k': 'sf', 'cells': cells}
     # (ii) frames through delimited text, (iii) structural routes
     nframes = 900 if quick else 8000
     for i in range(nframes):
@@ -534,7 +545,9 @@ def model_lines(c):
     if c['k'] == 'line':
         d, q, line = c['d'], c['q'], c['line']
         return [f'csv.parse {qatom(d)} {qatom(q)} {qatom(line)}',
-                f'csv.importtsv {qatom(line)}' if d == '\t' else f'csv.import {qatom(d)} {qatom(q)} {qatom(line)}']
+                f'csv.importtsv {qatom(q)} {qatom(line)}' if d == '\t' else f'csv.import {qatom(d)} {qatom(q)} {qatom(line)}']
+    if c['k'] == 'sf':
+        return [f'csv.sfenc {w}' for w in c['cells']] + [f'csv.sfdec {w}' for w in c['cells']]
     if c['k'] == 'frame':
         spec, cfg = c['spec'], c['cfg']
         if cfg['names'] == 'columns':
@@ -569,6 +582,8 @@ def evaluate(ctx, c, outs):
         return eval_line(ctx, c, outs)
     if c['k'] == 'frame':
         return eval_frame(ctx, c, outs)
+    if c['k'] == 'sf':
+        return eval_sf(ctx, c, outs)
     return eval_struct(ctx, c)
 
 
@@ -589,25 +604,94 @@ def eval_row(ctx, c, outs):
     # oracle (CPython csv module itself): the round trip of the theorem
     if all(clean_field(f) for f in fs) and back != fs:
         fails.append(Failure('oracle', f'csv.reader(csv.writer({fs!r})) with delimiter {d!r} quote {q!r} gave {back!r}', c))
-    joined = None
-    if d == '\t':
-        imp = real_split(line)
-    else:
-        imp = real_split('\t'.join(back)) if isinstance(back, list) else back
+    # from_delimited (every delimiter, tab included): csv.reader row -> tab join -> genfromtxt splitter
+    imp = real_split('\t'.join(back)) if isinstance(back, list) else back
     if outs:
         expect = 'ok (' + qatom(line) + ' ' + wire_or_err(back) + ' ' + wire_or_err(imp) + ')'
         if outs[0] != expect:
             fails.append(Failure('corr', f'row {fs!r} d={d!r} q={q!r}: model (line, parsed, imported) {outs[0]} vs csv.writer/csv.reader/genfromtxt splitter {expect}', c))
     # the rejoin theorem on the real pipeline pieces
     hyp = (fs and fs != [''] and all(clean_field(f) and '\t' not in f and not f.startswith(' ') and not f.endswith(' ') for f in fs))
-    if hyp and d != '\t':
+    if hyp:
         ctx.count('rows_rejoin_hypotheses_hold')
+        if d == '\t':
+            ctx.count('rows_tsv_hypotheses_hold')
+            if any(q in f for f in fs):
+                ctx.count('rows_tsv_with_quote_char')
         if imp != fs:
             fails.append(Failure('oracle', f'reader + tab re-join + genfromtxt splitter changed the row {fs!r} -> {imp!r} (d={d!r} q={q!r})', c))
-    if hyp and d == '\t' and not any(q in f for f in fs):
-        ctx.count('rows_tsv_hypotheses_hold')
-        if imp != fs:
-            fails.append(Failure('oracle', f'TSV line split changed the row {fs!r} -> {imp!r}', c))
+    return fails
+
+
+# ---- StoreFilter table -------------------------------------------------------------------------
+
+SF_SPECIALS = ['N', 'nan', 'nat', 'pinf', 'ninf']
+SF_TEXTS = ['', 'nan', 'NaN', 'NAN', 'NULL', '#N/A', 'None', 'inf', '-inf', 'NaT', 'none', 'Inf', 'x', 'a b', '0', '1.5', 'True', ' ', 'nan ']
+SF_PLAIN = ['i:0', 'i:-7', 'f:1.5', 'f:-0.0', 'b:1', 'b:0', 'i:9007199254740993']
+
+
+def sf_from_wire(w):
+    if w == 'N':
+        return None
+    if w == 'nan':
+        return float('nan')
+    if w == 'nat':
+        return np.datetime64('NaT')
+    if w == 'pinf':
+        return float('inf')
+    if w == 'ninf':
+        return float('-inf')
+    if w.startswith('p:'):
+        return untok(w[2:])
+    return parse_qatoms(w)[0]
+
+
+def sf_to_wire(v):
+    if v is None:
+        return 'N'
+    if isinstance(v, (str, np.str_)):
+        return qatom(str(v))
+    if isinstance(v, (np.datetime64,)) and np.isnat(v):
+        return 'nat'
+    if isinstance(v, (float, np.floating)):
+        if math.isnan(v):
+            return 'nan'
+        if math.isinf(v):
+            return 'pinf' if v > 0 else 'ninf'
+    return 'p:' + tok(v)
+
+
+def eval_sf(ctx, c, outs):
+    from static_frame.core.store_filter import STORE_FILTER_DEFAULT as SFD
+    fails = []
+    cells = c['cells']
+    vals = [sf_from_wire(w) for w in cells]
+    ctx.count('storefilter_cells', len(cells))
+    enc = [sf_to_wire(SFD.from_type_filter_element(v)) for v in vals]
+    dec = [sf_to_wire(SFD.to_type_filter_element(v)) for v in vals]
+    # the array forms apply the same table
+    obj = np.empty(len(vals), dtype=object)
+    obj[:] = vals
+    dec_arr = [sf_to_wire(x) for x in SFD.to_type_filter_array(obj).tolist()] if len(vals) else []
+    if dec_arr != dec:
+        fails.append(Failure('corr', f'StoreFilter.to_type_filter_array {dec_arr} != element-wise {dec} on {cells}', c))
+    tokens = set().union(SFD.to_nan, SFD.to_nat, SFD.to_none, SFD.to_posinf, SFD.to_neginf)
+    for w, v in zip(cells, vals):
+        # oracle: decode(encode(v)) == v on the domain of storefilter_default_inverse (not NaT, strings that are no tokens)
+        if w == 'nat' or (isinstance(v, str) and v in tokens):
+            ctx.count('storefilter_outside_domain')
+            continue
+        back = sf_to_wire(SFD.to_type_filter_element(SFD.from_type_filter_element(v)))
+        if back != w:
+            fails.append(Failure('oracle', f'StoreFilter: to_type_filter_element(from_type_filter_element({v!r})) gave {back}', c))
+    if outs:
+        k = len(cells)
+        menc = [o[3:] if o.startswith('ok ') else o for o in outs[:k]]
+        mdec = [o[3:] if o.startswith('ok ') else o for o in outs[k:2 * k]]
+        if menc != enc:
+            fails.append(Failure('corr', f'StoreFilter encode: model {menc} vs real {enc} on {cells}', c))
+        if mdec != dec:
+            fails.append(Failure('corr', f'StoreFilter decode: model {mdec} vs real {dec} on {cells}', c))
     return fails
 
 
@@ -618,10 +702,7 @@ def eval_line(ctx, c, outs):
     ctx.count('raw_lines')
     if isinstance(back, tuple):
         ctx.count('raw_lines_rejected')
-    if d == '\t':
-        imp = real_split(line)
-    else:
-        imp = real_split('\t'.join(back)) if isinstance(back, list) else back
+    imp = real_split('\t'.join(back)) if isinstance(back, list) else back
     if outs:
         mp, mi = parse_answer(outs[0]), parse_answer(outs[1])
         if mp != back:
@@ -876,34 +957,6 @@ def eval_struct(ctx, c):
     return fails
 
 
-def _requote_tok(t, q):
-    if t.startswith('s:'):
-        v = untok(t)
-        if q in v:
-            return tok(q + v.replace(q, q + q) + q)
-        return t
-    if t.startswith('t:('):
-        from sfv.canon import split_toks
-        return 't:(' + ' '.join(_requote_tok(x, q) for x in split_toks(t[3:-1])) + ')'
-    return t
-
-
-def comparable(snap, n, cfg):
-    keys = ['index', 'columns', 'index_name', 'columns_name'] if n == 0 else ['shape', 'index', 'columns', 'icls', 'ccls', 'index_name', 'columns_name', 'cols']
-    return {k: snap[k] for k in keys if k in snap}
-
-
-def tsv_defect_snapshot(exp, q, n):
-    """The expected import under finding F4: texts containing the quote char keep their csv quoting."""
-    out = dict(exp)
-    out['index'] = [_requote_tok(t, q) for t in exp['index']]
-    out['columns'] = [_requote_tok(t, q) for t in exp['columns']]
-    out['index_name'] = _requote_tok(exp['index_name'], q)
-    out['columns_name'] = _requote_tok(exp['columns_name'], q)
-    out['cols'] = [{'kind': c['kind'], 'vals': [_requote_tok(t, q) for t in c['vals']]} for c in exp['cols']]
-    return comparable(out, n, None)
-
-
 def classify(f):
     c = f.case or {}
     d = f.detail or {}
@@ -920,13 +973,6 @@ def classify(f):
             str_cols += [[untok(t) for t in lv] for lv in spec['index']['levels'] if lv and lv[0].startswith('s:')]
         if d.get('exc') == 'TypeError' and 'to a dtype is not allowed' in d.get('msg', '') and any(f31_trigger(cells) for cells in str_cols):
             return 'F43-genfromtxt-int-then-text-typeerror'
-        if (cfg['store_filter'] == 'none' and cfg['include_columns'] and spec['columns']['depth'] > 1
-                and d.get('exc') == 'AttributeError' and 'to_type_filter_iterable' in d.get('msg', '')):
-            return 'F45-from-delimited-store-filter-none-columns-depth'
-        if cfg['fmt'] == 'tsv' and any(cfg['q'] in t for t in all_texts(spec)) and d.get('got') is not None:
-            # exactly the predicted defect: every text containing the quote char comes back still quoted
-            if tsv_defect_snapshot(expected_snapshot(spec, cfg), cfg['q'], n) == comparable(d['got'], n, cfg):
-                return 'F4-tsv-import-skips-csv-reader'
     if c.get('k') == 'struct' and c.get('route', '').startswith('pairs1') and d.get('field') == 'cols':
         dts = {col['dt'] for col in c['spec']['cols']}
         if 'int' in dts and 'float' in dts and not ({'str', 'bool'} & dts) and d.get('exp_kind') == 'i' and d.get('got_kind') == 'f':
